@@ -47,7 +47,14 @@ BytesOfI32(x) ==
 I32OfBytes(b0, b1, b2, b3) ==
   (IF b3 >= 128 THEN b3 - 256 ELSE b3) * 16777216 + b2 * 65536 + b1 * 256 + b0
 
-WordsToBytes(ws) == FlattenSeq([k \in 1..Len(ws) |-> BytesOfI32(ws[k])])
+ByteOfI32(x, j) ==          \* j-th byte (0 = least significant) of the two's complement image
+  LET lo == x % 65536
+      hi == (x \div 65536) % 65536
+  IN CASE j = 0 -> lo % 256 [] j = 1 -> lo \div 256 [] j = 2 -> hi % 256 [] OTHER -> hi \div 256
+
+\* (FlattenSeq of the community modules is a recursive function: quadratic and deep; the
+\* sequences here are built with function constructors and folds instead)
+Concat(seqs) == FoldLeft(LAMBDA acc, x : acc \o x, << >>, seqs)
 
 \* the item header word  type_id__id  (upper 16 bit type_id, lower 16 bit id)
 TidId(tid, id) == (IF tid >= 32768 THEN tid - 65536 ELSE tid) * 65536 + id
@@ -59,6 +66,12 @@ AddC(a, b) == IF a < 0 \/ b < 0 THEN -1 ELSE IF a > MAXI - b THEN -1 ELSE a + b
 MulC(k, a) == IF a < 0 THEN -1 ELSE IF a > MAXI \div k THEN -1 ELSE k * a
 
 SumSeq(s) == FoldLeft(LAMBDA acc, x : acc + x, 0, s)
+
+\* TLC evaluates [k \in 1..n |-> e] lazily and re-evaluates e at every application; the
+\* concatenation forces a concrete tuple (semantically the identity on sequences).
+Strict(s) == s \o << >>
+
+WordsToBytes(ws) == Strict([i \in 1..(4 * Len(ws)) |-> ByteOfI32(ws[(i - 1) \div 4 + 1], (i - 1) % 4)])
 
 ----------------------------------------------------------------------------
 (* zlib: Adler-32 and the stored-block form *)
@@ -100,12 +113,12 @@ Inflate(s, Z) ==
 ItemBytes(it) == 8 + 4 * Len(it.w)
 
 Layout(v, df) ==
-  LET items == df.items
+  LET items == Strict(df.items)
       ni == Len(items)
       nit == Len(df.types)
       nd == Len(df.data)
-      imgs == [k \in 1..nd |-> IF v = 3 THEN df.data[k] ELSE ZStored(df.data[k])]
-      isz == [k \in 1..ni |-> ItemBytes(items[k])]
+      imgs == Strict([k \in 1..nd |-> IF v = 3 THEN Strict(df.data[k]) ELSE ZStored(df.data[k])])
+      isz == Strict([k \in 1..ni |-> ItemBytes(items[k])])
       si == SumSeq(isz)
       sd == SumSeq([k \in 1..nd |-> Len(imgs[k])])
       total == 36 + 12 * nit + 4 * ni + 4 * nd + (IF v = 3 THEN 0 ELSE 4 * nd) + si + sd
@@ -114,22 +127,22 @@ Layout(v, df) ==
   IN [ magic |-> MagicDATA, version |-> v,
        size |-> total - 16, swaplen |-> total - 16 - sd,
        nit |-> nit, ni |-> ni, nd |-> nd, si |-> si, sd |-> sd,
-       types |-> [k \in 1..nit |-> [type_id |-> df.types[k], start |-> Before(df.types[k]),
-                                     num |-> Of(df.types[k])]],
-       ioffs |-> [k \in 1..ni |-> SumSeq(SubSeq(isz, 1, k - 1))],
-       doffs |-> [k \in 1..nd |-> SumSeq([j \in 1..(k - 1) |-> Len(imgs[j])])],
-       dsizes |-> IF v = 3 THEN << >> ELSE [k \in 1..nd |-> Len(df.data[k])],
-       items |-> [k \in 1..ni |-> [tid |-> items[k].t, id |-> items[k].id,
-                                    size |-> 4 * Len(items[k].w), w |-> items[k].w]],
+       types |-> Strict([k \in 1..nit |-> [type_id |-> df.types[k], start |-> Before(df.types[k]),
+                                            num |-> Of(df.types[k])]]),
+       ioffs |-> Strict([k \in 1..ni |-> SumSeq(SubSeq(isz, 1, k - 1))]),
+       doffs |-> Strict([k \in 1..nd |-> SumSeq([j \in 1..(k - 1) |-> Len(imgs[j])])]),
+       dsizes |-> IF v = 3 THEN << >> ELSE Strict([k \in 1..nd |-> Len(df.data[k])]),
+       items |-> Strict([k \in 1..ni |-> [tid |-> items[k].t, id |-> items[k].id,
+                                           size |-> 4 * Len(items[k].w), w |-> Strict(items[k].w)]]),
        data |-> imgs ]
 
 HdrWords(L) == << L.magic, L.version, L.size, L.swaplen, L.nit, L.ni, L.nd, L.si, L.sd >>
-TypeWords(L) == FlattenSeq([k \in 1..Len(L.types) |->
+TypeWords(L) == Concat([k \in 1..Len(L.types) |->
                               << L.types[k].type_id, L.types[k].start, L.types[k].num >>])
-ItemWords(L) == FlattenSeq([k \in 1..Len(L.items) |->
+ItemWords(L) == Concat([k \in 1..Len(L.items) |->
                               << TidId(L.items[k].tid, L.items[k].id), L.items[k].size >> \o L.items[k].w])
 Words(L) == HdrWords(L) \o TypeWords(L) \o L.ioffs \o L.doffs \o L.dsizes \o ItemWords(L)
-FileBytes(L) == WordsToBytes(Words(L)) \o FlattenSeq(L.data)
+FileBytes(L) == WordsToBytes(Words(L)) \o Concat(L.data)
 
 ----------------------------------------------------------------------------
 (* reader: any byte string -> verdict *)
@@ -151,11 +164,11 @@ View(B) ==
       dsBase == doffBase + nd
       itemsBase == dsBase + (IF v = 4 THEN nd ELSE 0)
   IN [ v |-> v, nit |-> nit, ni |-> ni, nd |-> nd, si |-> si, sd |-> sd,
-       types |-> [i \in 1..nit |-> [type_id |-> W(9 + 3 * (i - 1) + 1), start |-> W(9 + 3 * (i - 1) + 2),
-                                     num |-> W(9 + 3 * (i - 1) + 3)]],
-       ioffs |-> [i \in 1..ni |-> W(ioffBase + i)],
-       doffs |-> [i \in 1..nd |-> W(doffBase + i)],
-       dsizes |-> IF v = 4 THEN [i \in 1..nd |-> W(dsBase + i)] ELSE << >>,
+       types |-> Strict([i \in 1..nit |-> [type_id |-> W(9 + 3 * (i - 1) + 1), start |-> W(9 + 3 * (i - 1) + 2),
+                                            num |-> W(9 + 3 * (i - 1) + 3)]]),
+       ioffs |-> Strict([i \in 1..ni |-> W(ioffBase + i)]),
+       doffs |-> Strict([i \in 1..nd |-> W(doffBase + i)]),
+       dsizes |-> IF v = 4 THEN Strict([i \in 1..nd |-> W(dsBase + i)]) ELSE << >>,
        itemsBase |-> itemsBase,                 \* in words
        dataStart |-> 4 * itemsBase + si ]       \* in bytes
 
@@ -207,7 +220,7 @@ ItemAt(B, V, k) ==
   LET off == V.ioffs[k]
       h == ItemWord(B, V, off)
       sz == ItemWord(B, V, off + 4)
-  IN [t |-> TidOf(h), id |-> IdOf(h), w |-> [j \in 1..(sz \div 4) |-> ItemWord(B, V, off + 4 + 4 * j)]]
+  IN [t |-> TidOf(h), id |-> IdOf(h), w |-> Strict([j \in 1..(sz \div 4) |-> ItemWord(B, V, off + 4 + 4 * j)])]
 
 \* fourth block: every item of a type-table range carries that type id
 ItemTypesOK(B, V) ==
@@ -259,10 +272,10 @@ Read(B, Z) ==
   ELSE IF ~ItemTypesOK(B, V) THEN ErrV("Malformed")
   ELSE [ open |-> "ok",
          ver |-> IF v = 3 THEN "V3" ELSE IF size = size0 THEN "V4" ELSE "V4Crude",
-         types |-> [i \in 1..nit |-> V.types[i].type_id],
-         ranges |-> [i \in 1..nit |-> [start |-> V.types[i].start, num |-> V.types[i].num]],
-         items |-> [k \in 1..ni |-> ItemAt(B, V, k)],
-         data |-> [k \in 1..nd |-> DataVerdict(B, V, k, Z)] ]
+         types |-> Strict([i \in 1..nit |-> V.types[i].type_id]),
+         ranges |-> Strict([i \in 1..nit |-> [start |-> V.types[i].start, num |-> V.types[i].num]]),
+         items |-> Strict([k \in 1..ni |-> ItemAt(B, V, k)]),
+         data |-> Strict([k \in 1..nd |-> DataVerdict(B, V, k, Z)]) ]
 
 \* what the accessors must return for an accepted file
 ItemsOfType(R, t) ==
